@@ -223,6 +223,7 @@ static void run_hist(vh::Trace& tr, const Geo& g, const Settings& st, const std:
   LmProbe l2p;
   int cur_frame = 0;
   shared_ptr<ProjData> out;
+  const bool file_out = !st.file_prefix.empty();
   g_hook = [&](const char* site, long a, long b, long c, long d) {
     if (!std::strcmp(site, "lm.batch")) {
       // everything saved so far in this frame is in the output now
@@ -233,7 +234,6 @@ static void run_hist(vh::Trace& tr, const Geo& g, const Settings& st, const std:
     else if (!std::strcmp(site, "lm.rewind")) tr.emit(vh::Json("Rewind").num("f", a));
     else tr.emit(vh::Json("Hook").str("site", site));
   };
-  const bool file_out = !st.file_prefix.empty();
   l2p.on_new_frame = [&](unsigned f) {
     if (file_out) {
       // the previous frame's file is complete and closed by now
@@ -351,7 +351,9 @@ static void mode_hist(vh::Trace& tr, long runs, int maxlen, int stage, vh::Rng& 
       run_hist(tr, g, st, recs, true);
     }
     // the same through Interfile output files, one per frame (scratch directory given on the command line)
-    if (!g_scratch.empty() && run % 4 == 1) {
+    // (not for TOF scanners with a single mashed TOF bin: the Interfile header written for such data cannot be
+    //  read back, "matrix axis label has to be resized to size 5" — projection-data IO, outside this property)
+    if (!g_scratch.empty() && run % 4 == 1 && (g.maxT == 0 || ntof > 1)) {
       Settings st = base;
       st.fresh = true;
       st.segIM = ims.back().first; st.tofIM = ims.back().second;
